@@ -204,8 +204,23 @@ func runCodTab(c *core.Ctx) {
 		}
 	})
 	c.CountFuncs(1)
-	c.Check(setList(tags) == setList(looked) && len(tags) == st.NumFields() && countTest == int64(st.NumFields()), nil, "Event", "keys", P.Pos(edec.Pos()), fmt.Sprintf("%d struct tags = %d keys looked up = member-count test (%d)", len(tags), len(looked), countTest),
-		fmt.Sprintf("Event codec disagreement: struct tags {%s}, keys looked up {%s}, member-count test %d, fields %d", setList(tags), setList(looked), countTest, st.NumFields()))
+	// the member counts under which decoding proceeds to the first lookup
+	proceed := an.Empty()
+	var firstLookup *ssa.Lookup
+	an.Instrs(edec, func(in ssa.Instruction) {
+		if lk, ok := in.(*ssa.Lookup); ok && firstLookup == nil {
+			if _, ok := an.ConstStr(lk.Index); ok {
+				firstLookup = lk
+			}
+		}
+	})
+	if firstLookup != nil {
+		fr := an.ConstFrame("len(" + an.PathOf(firstLookup.X) + ")")
+		proceed, _, _ = fr.ReachSet(edec, firstLookup.Block(), nil, nil)
+	}
+	nf := int64(st.NumFields())
+	c.Check(setList(tags) == setList(looked) && len(tags) == st.NumFields() && countTest == nf && proceed.Equal(an.Range(nf, nf)), nil, "Event", "keys", P.Pos(edec.Pos()), fmt.Sprintf("%d struct tags = %d keys looked up; decoding proceeds iff the object has %s members", len(tags), len(looked), proceed),
+		fmt.Sprintf("Event codec disagreement: struct tags {%s}, keys looked up {%s}, decoding proceeds with %s members (want exactly %d): missing or extra members are not refused", setList(tags), setList(looked), proceed, nf))
 }
 
 func labelHas(P *core.Program, nt *types.Named, method string) bool {
